@@ -264,6 +264,70 @@ func init() {
 		}
 		q.Next()
 	})
+	// Next on a finished query, for the query shapes that pick their archetype list differently: all archetypes,
+	// the archetypes of the filter's rarest component, an empty list (component contained in no archetype), the cache
+	noArch := func(d *Drv, op *Op) int {
+		var used CSet
+		s := d.W.Stats()
+		for i := range s.Archetypes {
+			for _, id := range s.Archetypes[i].ComponentIDs {
+				for c := 0; c < u.N; c++ {
+					if d.ID[c].Index() == id {
+						used = used.With(c)
+					}
+				}
+			}
+		}
+		var free []int
+		for c := 0; c < u.N; c++ {
+			if !used.Has(c) {
+				free = append(free, c)
+			}
+		}
+		if len(free) == 0 {
+			panic(skipMisuse{})
+		}
+		return free[op.N%len(free)]
+	}
+	for _, shape := range []string{"all archetypes", "With victim component", "With component in no archetype"} {
+		for _, cached := range []bool{false, true} {
+			shape, cached := shape, cached
+			name := "Query0.Next after exhaustion (" + shape + map[bool]string{false: ")", true: ", cached)"}[cached]
+			addMisuse("debugguard", name, func(d *Drv, op *Op, h, _ ecs.Entity) {
+				f := ecs.NewFilter0(d.W)
+				switch shape {
+				case "With victim component":
+					f = f.With(comps(op.Add[:1])...)
+				case "With component in no archetype":
+					f = f.With(comps([]int{noArch(d, op)})...)
+				}
+				if cached {
+					f = f.Register()
+					defer f.Unregister()
+				}
+				q := f.Query()
+				defer q.Close()
+				for q.Next() {
+				}
+				q.Next()
+			})
+		}
+		shape := shape
+		addMisuse("debugguard", "UnsafeQuery.Next after exhaustion ("+shape+")", func(d *Drv, op *Op, h, _ ecs.Entity) {
+			var ids []ecs.ID
+			switch shape {
+			case "With victim component":
+				ids = d.ids(op.Add[:1])
+			case "With component in no archetype":
+				ids = d.ids([]int{noArch(d, op)})
+			}
+			q := ecs.NewUnsafeFilter(d.W, ids...).Query()
+			defer q.Close()
+			for q.Next() {
+			}
+			q.Next()
+		})
+	}
 	addMisuse("debugguard", "Query1.Get+deref before Next", func(d *Drv, op *Op, h, _ ecs.Entity) {
 		q := ecs.NewFilter1[u.P8](d.W).Query()
 		defer q.Close()
@@ -418,6 +482,19 @@ func init() {
 				}
 			}
 			// reaching this point means the dereference did not panic: the row returns normally and is reported
+		})
+		addMisuse("debugguardN", "QueryN.Next after exhaustion (With component in no archetype)"+name, func(d *Drv, op *Op, h, _ ecs.Entity) {
+			c := noArch(d, op)
+			f := typed.Tuples[op.Tuple].NewFilter(d.W, false)
+			f.With(comps([]int{c}))
+			if cached {
+				f.Register()
+			}
+			q := f.Query(nil)
+			defer fin(f, q)
+			for q.Next() {
+			}
+			q.Next()
 		})
 		addMisuse("debugguardN", "QueryN.Next after exhaustion"+name, func(d *Drv, op *Op, h, _ ecs.Entity) {
 			f, q := tq(d, op, cached)
